@@ -47,3 +47,12 @@ check("C02", "exploration", "deterministic cluster simulation with an adversaria
 check("C05", "exploration", "deterministic cluster simulation: structure-aware transaction shapes pushed through the unauthenticated peer bundle path and the RPC path; panic tripwire on every node step",
   "30 structure-aware shapes plus the C01/C02 forgeries validated by the real background queue worker, RPC admission and snapshot validation over ledgers with outputs of every materializable type; any panic escaping a node step is a violation. Two genuine defects were found and repaired (known_findings.json).",
   _r1note, "DESIGN.md section 8 C05")
+check("C16", "exploration", "deterministic cluster simulation with capped-asset deposit scenarios; tripwire on every finalization write of a validated batch",
+  "Real consensus over deposits near asset capacities (same batch and concurrent proposals), asset-information clashes, transfers, withdrawals and double spends under network faults and crash/restart; any error or panic of the finalization write of a batch whose members all validated is a violation, classified by cause. One defect repaired, two recorded as known findings (known_findings.json).",
+  _r1note, "DESIGN.md section 8 C16")
+check("C17", "exploration", "deterministic cluster simulation: per-node supply model after every finalization plus full scans of unconsumed outputs",
+  "Recorded asset totals compared with each node's own finalized history after every finalization and with the sum of unconsumed outputs (full output scan) at checkpoints, after restarts and at the end; deposits, transfers, withdrawal submissions, double spends, network faults, crash/restart.",
+  _r1note + " Mint and node operations are not part of these runs.", "DESIGN.md section 8 C17")
+check("C21", "fault_enumeration", "deterministic cluster simulation: enumerated crash boundaries around the consensus marker write with intra-node interleaving of other chain loops",
+  "For each seeded history with a real node-removal operation, every enumerated crash boundary around the snapshot write / consensus marker write, with and without other chain loops interleaved at the boundary (Store-call granularity); after restart the recorded consensus operation must not be older than the durably finalized one. The defect found was repaired (known_findings.json).",
+  _r1note + " Interleaving is at Store-call granularity (A3).", "DESIGN.md section 8 C21")
